@@ -62,6 +62,7 @@ fn main() {
         "show" => {
             // debugging aid: run the case of a replay file and print the history and every violation
             let rep = read_replay(&PathBuf::from(&args[2])).unwrap();
+            hv_sim::driver::burn_ordinals(rep.ordinal);
             let (run, _) = run_on_thread(&rep.case).unwrap();
             let v = hv_sim::analysis::View::new(&rep.case, &run);
             for l in v.excerpt(2000) {
